@@ -79,6 +79,37 @@ def designed_cases(seed, tier):
         out.append({"id": f"chain-{cs}", "text": text, "ast": prog.to_json(), "param": "p", "param_kind": "real", "inits": K.frac_enc(inits),
                     "goals": [{"y": 1}, {"z": 1}, {"y": 1, "c": 1}][: r.choice([2, 3])], "N": 4, "tests": [[t.numerator, t.denominator] for t in tests],
                     "features": ["designed:chained-initial-assignment"]})
+    # the parameter reaches the goal variable only through reads of the PREVIOUS iteration's value of variables assigned later in the
+    # body (s reads x, x reads y, y uses p): the dependence needs as many closure rounds as the chain is long and shows from n = depth+2 on;
+    # also products of a parameter-dependent with a parameter-independent loop-carried variable
+    n = 4 if tier == "quick" else 40
+    for j in range(n):
+        cs = K.harness_seed(seed, ID + "-backchain", j)
+        r = random.Random(cs)
+        depth = r.choice([2, 2, 3])
+        names = ["s", "x", "y", "w"][: depth + 1]
+        last = names[-1]
+        src = r.choice([f"{last} = {last} + 1 {{p}} {last}", f"{last} = {last} + 2 {{p}} {last} - 1", f"{last} = {last} + p {{1/2}} {last}"] + ([f"{last} = 1/2*{last} + p**2"] if tier != "quick" else []))
+        lines = []
+        for a_, b_ in zip(names, names[1:]):
+            # quick: unit coefficients only (polynomial closed forms; Polar's own summation of mixed geometric terms takes 20-90 s)
+            lines.append(r.choice([f"{a_} = {a_} + {b_}", f"{a_} = {a_} + 2*{b_}"] + ([f"{a_} = 1/2*{a_} + {b_}"] if tier != "quick" else [])))
+        lines.append(src)
+        kind = "prob" if "{p}" in src else "real"
+        indep = r.random() < 0.5
+        init = "\n".join(f"{v} = {r.choice([0, 0, 1])}" for v in names)
+        if indep:
+            init += "\nq = 0\nz = 0"
+            lines.append("q = q + 1 {1/3} q - 1")
+            lines.append(f"z = z + {'p*' if kind == 'real' else ''}{names[1]}*q")
+        text = f"{init}\nwhile true:\n" + "".join(f"    {l}\n" for l in lines) + "end\n"
+        prog = parse_program(text)
+        goals = ([{"s": 1}, {"s": 2}] if depth == 2 else [{"s": 1}]) if not indep else [{"s": 1}, {"z": 1}, {names[1]: 1, "q": 1}][: 3 if depth == 2 else 2]
+        tests = [Fraction(r.randint(2, 8), 11), Fraction(r.randint(1, 6), 7)] if kind == "prob" else \
+            [Fraction(5 * r.randint(-1, 1) + r.choice([1, 2, 3, 4]), 5), Fraction(r.choice([1, 2, 3, 4, 5, 6]), 7)]
+        out.append({"id": f"backchain-{cs}", "text": text, "ast": prog.to_json(), "param": "p", "param_kind": kind, "inits": K.frac_enc({}),
+                    "goals": goals, "N": depth + 2, "tests": [[t.numerator, t.denominator] for t in tests],
+                    "features": ["designed:backward-dependency-chain-depth-%d" % depth] + (["designed:dependent-times-independent"] if indep else [])})
     return out
 
 
@@ -86,7 +117,7 @@ def generate(seed, tier):
     cases = designed_cases(seed, tier)
     i = 0
     tries = 0
-    while len(cases) < NCASES[tier] + 6 and tries < NCASES[tier] * 6:
+    while len(cases) < NCASES[tier] + 10 and tries < NCASES[tier] * 6:
         tries += 1
         cs = K.harness_seed(seed, ID, tries)
         rng = random.Random(cs)
